@@ -135,7 +135,8 @@ fn curve_class(path: &Path) -> Option<&'static str> {
     if k7 {
         Some("K7")
     } else if k8 {
-        Some("K8")
+        // a control point coinciding with its end point: part of K7's stated domain ("ctrl == endpoint")
+        Some("K7")
     } else {
         None
     }
